@@ -547,8 +547,8 @@ func culpritMethods(corpusDir string, d *Design) map[string][]string {
 				uniq = append(uniq, x)
 			}
 		}
-		if len(uniq) > 6 {
-			uniq = uniq[:6]
+		if len(uniq) > 40 {
+			uniq = uniq[:40]
 		}
 		out[k] = uniq
 	}
